@@ -24,6 +24,8 @@ BAND = z3.Function("band", _I, _I, _I)
 BOR = z3.Function("bor", _I, _I, _I)
 BXOR = z3.Function("bxor", _I, _I, _I)
 IPOW = z3.Function("ipow", _I, _I, _I)
+SHL = z3.Function("shl", _I, _I, _I)
+SHR = z3.Function("shr", _I, _I, _I)
 IROUND = z3.Function("iround", _I, _I, _I)
 RROUND1 = z3.Function("rround1", _R, _I)
 RROUND2 = z3.Function("rround2", _R, _R, _R)
@@ -126,6 +128,13 @@ def sym_and(*xs):
     return z3.And(*[tobool(x) for x in xs]) if xs else z3.BoolVal(True)
 
 
+_PICKLE_TABLE = {}
+
+
+def _restore_sym(k):
+    return _PICKLE_TABLE[k]
+
+
 class SymInt:
     """Symbolic Python int."""
     __slots__ = ("e", "hashmode", "lo", "hi")
@@ -154,6 +163,12 @@ class SymInt:
             SymInt._index[key] = k
             SymInt._registry.append(self)
         return f"_S[{k}]"
+
+    def __reduce__(self):
+        # pickling within one process: original and copy hold the same z3 symbol
+        k = len(_PICKLE_TABLE)
+        _PICKLE_TABLE[k] = self
+        return (_restore_sym, (k,))
 
     def __index__(self):
         return core.cur().concretize(self.e, self.lo, self.hi)
@@ -317,6 +332,21 @@ class SymInt:
     def __rxor__(self, o):
         return self._bin(o, _bxor, True)
 
+    def __lshift__(self, o):
+        return self._bin(o, _shl)
+
+    def __rlshift__(self, o):
+        return self._bin(o, _shl, True)
+
+    def __rshift__(self, o):
+        return self._bin(o, _shr)
+
+    def __rrshift__(self, o):
+        return self._bin(o, _shr, True)
+
+    def __matmul__(self, o):
+        return NotImplemented
+
     def _cmp(self, o, f):
         if isinstance(o, (float, np.floating)) and o != o:
             return f is _ne
@@ -375,6 +405,14 @@ def _band(a, b):
 def _bor(a, b):
     a, b = _sorted2(a, b)
     return BOR(a, b)
+
+
+def _shl(a, b):
+    return SHL(a, b)
+
+
+def _shr(a, b):
+    return SHR(a, b)
 
 
 def _bxor(a, b):
